@@ -57,7 +57,7 @@ def main():
     if var.get("chunk"):
         numba.set_parallel_chunksize(var["chunk"])
     scn = dict(scn)
-    scn["env"] = {"threads": var.get("threads", 1), "clock": var.get("clock"), "rng_seed": var.get("rng_seed", 1), "cwd": var.get("cwd", "work")}
+    scn["env"] = {"threads": var.get("threads", 1), "clock": var.get("clock"), "rng_seed": var.get("rng_seed", 1), "cwd": var.get("cwd", "work"), "device_used_before": var.get("device_used_before")}
     scn["observer"] = {"output": var.get("output")}
     # unrelated work done in the process before the run
     pre = var.get("prework")
